@@ -175,6 +175,9 @@ def _worker_chunk(args):
                 out["harness_errors"].append({"index": i, "error": "".join(traceback.format_exception(e))[-2000:]})
                 continue
             out["n"] += 1
+            # judged cases of this run: what the engine says, else one per distinct case it contributed, at least one
+            out["evals"] = out.get("evals", 0) + (res.get("evals") or max(
+                1, len(res.get("distinct", {}).get(_engine.distinct_measure(prop), ()))))
             out["sim_time_s"] += res.get("sim_time_s", 0.0)
             out["steps"] += res.get("steps", 0)
             for k, v in res.get("counts", {}).items():
@@ -514,7 +517,10 @@ def run_check(prop, engine_name, tier, level, rule, assumptions, components, sel
     dn_name = engine.distinct_measure(prop)
     distinct_nontrivial = len(total["distinct"].get(dn_name, ()))
     cov = {
-        "evaluations": total["n"],
+        "evaluations": max(total.get("evals", 0), total["n"]),
+        "evaluations_rule": "oracle evaluations: cases judged against the reference (a run judges one or more: every "
+                            "transfer / request / permutation / crash point it contains); runs = simulated executions",
+        "runs": total["n"],
         "distinct_nontrivial": distinct_nontrivial,
         "rule": rule,
         "samples": total["samples"][:3],
@@ -594,6 +600,7 @@ def _worker_died(prop, engine_name, e):
 
 def _merge(total, out):
     total["n"] += out["n"]
+    total["evals"] = total.get("evals", 0) + out.get("evals", out["n"])
     total["ok"] += out["ok"]
     total["violations"] += out["violations"]
     total["harness_errors"] += out["harness_errors"]
